@@ -36,6 +36,7 @@ type obs struct {
 	// alias cases: the start element the iterator was given and the skipped element the step began at
 	JumpStart string `json:"jump_start,omitempty"`
 	JumpVia   string `json:"jump_via,omitempty"`
+	JumpPred  string `json:"jump_pred,omitempty"`
 }
 
 // newIter calls the real constructor; a panic becomes an error text (the property demands an error value)
@@ -211,6 +212,7 @@ func main() {
 						it.SetStart(start)
 						pred := new(big.Int).Mul(y, new(big.Int).ModInverse(G, P))
 						it.SetI(pred.Mod(pred, P))
+						o.JumpPred = pred.String()
 						o.JumpTarget = z.Int64()
 						if it.Next() {
 							o.Outs = []int64{it.Int().Int64()}
